@@ -15,10 +15,18 @@ import (
 
 // ErrCase is a spokfile text that does not parse, to be reported by the real CLI.
 type ErrCase struct {
-	Src string `json:"src"`
+	// ProjDir names the directory holding the spokfile ("" = proj)
+	ProjDir string `json:"proj_dir,omitempty"`
+	Src     string `json:"src"`
 }
 
 func genErr(t *rapid.T) ErrCase {
+	c := genErrBody(t)
+	c.ProjDir = genProjDir(t)
+	return c
+}
+
+func genErrBody(t *rapid.T) ErrCase {
 	x := gen.Soup(t)
 	switch rapid.IntRange(0, 3).Draw(t, "lead") {
 	case 1:
@@ -44,7 +52,7 @@ func execErrBinary(s *ev.Shard, b *sandbox.Box, c ErrCase) *rp.Fail {
 	if strings.ContainsRune(c.Src, 0) {
 		return nil
 	}
-	if err := b.Reset(); err != nil {
+	if err := b.ResetAs(c.ProjDir); err != nil {
 		return &rp.Fail{Sig: "harness", Msg: err.Error()}
 	}
 	if err := writeProject(b, b.Proj, map[string]string{"spokfile": c.Src}); err != nil {
